@@ -47,8 +47,51 @@ func (s Sort) Mangle() string {
 	return r.Replace(string(s))
 }
 
+var selIdx = map[string]struct {
+	ctor string
+	idx  int
+}{"s_ref": {"(mk_slice ", 0}, "s_off": {"(mk_slice ", 1}, "s_len": {"(mk_slice ", 2}, "s_cap": {"(mk_slice ", 3},
+	"i_tag": {"(mk_iface ", 0}, "i_ref": {"(mk_iface ", 1}, "sub_p": {"(sub ", 0}, "elem_p": {"(elem ", 0}, "elem_i": {"(elem ", 1}}
+
 func app(op string, args ...string) string {
+	if len(args) == 1 {
+		if si, ok := selIdx[op]; ok && strings.HasPrefix(args[0], si.ctor) {
+			parts := splitTop(args[0][len(si.ctor) : len(args[0])-1])
+			if si.idx < len(parts) {
+				return parts[si.idx]
+			}
+		}
+		if op == "(_ is elem)" || op == "(_ is sub)" || op == "(_ is mkref)" {
+			for _, c := range []string{"elem", "sub", "mkref"} {
+				if strings.HasPrefix(args[0], "("+c+" ") {
+					if op == "(_ is "+c+")" {
+						return "true"
+					}
+					return "false"
+				}
+			}
+		}
+	}
+	if len(args) == 2 {
+		switch op {
+		case "bvadd":
+			if isZeroBV(args[1]) {
+				return args[0]
+			}
+			if isZeroBV(args[0]) {
+				return args[1]
+			}
+		case "bvsub":
+			if isZeroBV(args[1]) {
+				return args[0]
+			}
+		}
+	}
 	return "(" + op + " " + strings.Join(args, " ") + ")"
+}
+
+func isZeroBV(t string) bool {
+	return strings.HasPrefix(t, "(_ bv0 ")
 }
 
 func bvLit(v *big.Int, bits int) string {
@@ -124,7 +167,21 @@ func eq(a, b string) string {
 	if a == b {
 		return "true"
 	}
+	if b == "(mkref 0)" && nonNilSyntactic(a) {
+		return "false"
+	}
+	if a == "(mkref 0)" && nonNilSyntactic(b) {
+		return "false"
+	}
 	return app("=", a, b)
+}
+
+// nonNilSyntactic: interior pointers and freshly allocated objects are never nil.
+func nonNilSyntactic(t string) bool {
+	if strings.HasPrefix(t, "(sub ") || strings.HasPrefix(t, "(elem ") {
+		return true
+	}
+	return strings.HasPrefix(t, "(mkref ") && t != "(mkref 0)"
 }
 func ite(c, a, b string) string {
 	if c == "true" {
@@ -485,8 +542,146 @@ func truncate(s string, n int) string {
 	return s
 }
 
-// DischargeAll runs VCs in parallel.
+// batchCheck runs a batch of VCs in ONE solver process (push/pop), without
+// models. VCs answered `unsat` (resp. `sat` for cover checks) are final; the
+// others are re-run individually (with models and the full portfolio).
+func batchCheck(s SolverCfg, vcs []*VC, pre, dir string, perCheckMs int) {
+	n := atomic.AddInt64(&vcCounter, 1)
+	file := filepath.Join(dir, fmt.Sprintf("batch%05d_%s.smt2", n, s.Name))
+	var b strings.Builder
+	b.WriteString("(set-logic ALL)\n")
+	if s.Name != "cvc5" {
+		fmt.Fprintf(&b, "(set-option :timeout %d)\n", perCheckMs)
+	}
+	b.WriteString(pre)
+	for _, vc := range vcs {
+		b.WriteString("(push 1)\n")
+		for _, d := range vc.Decls {
+			b.WriteString(d + "\n")
+		}
+		for _, a := range vc.Asserts {
+			if a != "true" {
+				b.WriteString("(assert " + a + ")\n")
+			}
+		}
+		if vc.ExpectSat {
+			if vc.Goal != "" && vc.Goal != "true" {
+				b.WriteString("(assert " + vc.Goal + ")\n")
+			}
+		} else {
+			b.WriteString("(assert (not " + vc.Goal + "))\n")
+		}
+		b.WriteString("(check-sat)\n(pop 1)\n")
+	}
+	if err := os.WriteFile(file, []byte(b.String()), 0o644); err != nil {
+		return
+	}
+	total := perCheckMs/1000*len(vcs) + 5
+	ctx, cancel := context.WithTimeout(context.Background(), time.Duration(total+5)*time.Second)
+	defer cancel()
+	var args []string
+	if s.Name == "cvc5" {
+		args = []string{"cvc5", "--incremental", "--arrays-exp", fmt.Sprintf("--tlimit-per=%d", perCheckMs), file}
+	} else {
+		args = []string{s.Name, fmt.Sprintf("-T:%d", total), file}
+	}
+	cmd := exec.CommandContext(ctx, args[0], args[1:]...)
+	var out bytes.Buffer
+	cmd.Stdout = &out
+	cmd.Stderr = &out
+	t0 := time.Now()
+	_ = cmd.Run()
+	dt := time.Since(t0).Seconds()
+	var answers []string
+	for _, l := range strings.Split(out.String(), "\n") {
+		l = strings.TrimSpace(l)
+		switch l {
+		case "sat", "unsat", "unknown", "timeout":
+			answers = append(answers, l)
+		}
+	}
+	stats.mu.Lock()
+	stats.Calls[s.Name+"(batch)"]++
+	stats.Seconds[s.Name+"(batch)"] += dt
+	stats.mu.Unlock()
+	for i, vc := range vcs {
+		if i >= len(answers) {
+			break
+		}
+		want := "unsat"
+		if vc.ExpectSat {
+			want = "sat"
+		}
+		if answers[i] == want {
+			vc.Agree++
+			if vc.Solver == "" {
+				vc.Solver = s.Name
+			} else if !strings.Contains(vc.Solver, s.Name) {
+				vc.Solver += "+" + s.Name
+			}
+			vc.Result = want
+			vc.Seconds += dt / float64(len(vcs))
+			stats.mu.Lock()
+			stats.Unsat[s.Name+"(batch)"]++
+			stats.mu.Unlock()
+		}
+	}
+}
+
+// DischargeAll: batched first pass, individual second pass for what is left.
 func DischargeAll(vcs []*VC, pre string, dir string, timeoutS int, needTwo bool, par int) {
+	const batchSize = 24
+	var batches [][]*VC
+	for i := 0; i < len(vcs); i += batchSize {
+		j := i + batchSize
+		if j > len(vcs) {
+			j = len(vcs)
+		}
+		batches = append(batches, vcs[i:j])
+	}
+	runBatches := func(s SolverCfg, sel func(*VC) bool) {
+		var wg sync.WaitGroup
+		ch := make(chan []*VC)
+		for i := 0; i < par; i++ {
+			wg.Add(1)
+			go func() {
+				defer wg.Done()
+				for b := range ch {
+					batchCheck(s, b, pre, dir, 4000)
+				}
+			}()
+		}
+		for _, b := range batches {
+			var bb []*VC
+			for _, vc := range b {
+				if sel(vc) {
+					bb = append(bb, vc)
+				}
+			}
+			if len(bb) > 0 {
+				ch <- bb
+			}
+		}
+		close(ch)
+		wg.Wait()
+	}
+	runBatches(solvers[0], func(vc *VC) bool { return vc.Result == "" })
+	if needTwo {
+		// second opinion on everything the first solver answered
+		runBatches(solvers[2], func(vc *VC) bool { return vc.Agree == 1 && !vc.ExpectSat })
+		runBatches(solvers[1], func(vc *VC) bool { return vc.Agree == 1 && !vc.ExpectSat })
+	}
+	var rest []*VC
+	for _, vc := range vcs {
+		if vc.Result == "" {
+			rest = append(rest, vc)
+		}
+	}
+	dischargeEach(rest, pre, dir, timeoutS, needTwo, par)
+}
+
+// dischargeEach runs VCs one per solver process, in parallel.
+func dischargeEach(vcs []*VC, pre string, dir string, timeoutS int, needTwo bool, par int) {
 	var wg sync.WaitGroup
 	ch := make(chan *VC)
 	for i := 0; i < par; i++ {
